@@ -55,3 +55,34 @@ Theorem C10_product_is_relational_composition : forall (S : SR) (M : nat) (V : l
   trel (compose_nf M a b) fuel xs zs = bsum (words_le V fuel) (fun ys => smul (trel a fuel xs ys) (trel b fuel ys zs)).
 Proof. intros; apply compose_nf_relational; assumption. Qed.
 Print Assumptions C10_product_is_relational_composition.
+
+(* The other constructions of fst.py, against the same relational semantics (hand-written one-loop models of FST.T,
+   FST.diag and FST.project in proofs/FstOpsProofs.v; the implementation's results are compared with the relational
+   oracle in the correspondence run): transposition swaps the two tapes exactly; the diagonal of an epsilon-free
+   acceptor relates a string to itself with the acceptor's weight and to nothing else; projecting onto a tape sums the
+   relation over the other tape -- every path once (machines that read, resp. write, a symbol on every arc). *)
+From GV.model Require Wfsa Cfg.
+From GV.proofs Require FstOpsProofs.
+Theorem C10_transpose : forall (S : SR) (m : fst_t S) (fuel : nat) (xs ys : list nat),
+  trel (transpose m) fuel xs ys = trel m fuel ys xs /\ transpose (transpose m) = m.
+Proof.
+  intros S m fuel xs ys. split; [exact (FstOpsProofs.trel_transpose S m fuel xs ys)|exact (FstOpsProofs.transpose_involutive S m)].
+Qed.
+Print Assumptions C10_transpose.
+
+Theorem C10_diag : forall (S : SR) (A : Wfsa.wfsa S), Wfsa.eps_free A -> forall (fuel : nat) (xs ys : list nat), length xs <= fuel ->
+  trel (FstOpsProofs.diag A) fuel xs ys = if Cfg.list_eqb Nat.eqb xs ys then Wfsa.pathsum A xs else s0.
+Proof. intros S A H fuel xs ys Hf. exact (FstOpsProofs.diag_relation S A H fuel xs ys Hf). Qed.
+Print Assumptions C10_diag.
+
+Theorem C10_projections : forall (S : SR) (V : list nat) (m : fst_t S), NoDup V ->
+  ((forall ar, In ar (tarcs m) -> exists x, tin ar = Some x) -> (forall ar y, In ar (tarcs m) -> tout ar = Some y -> In y V) ->
+     forall xs, Wfsa.pathsum (FstOpsProofs.project_in m) xs = bsum (ProductProofs.words_le V (length xs)) (fun ys => trel m (length xs) xs ys)) /\
+  ((forall ar, In ar (tarcs m) -> exists y, tout ar = Some y) -> (forall ar x, In ar (tarcs m) -> tin ar = Some x -> In x V) ->
+     forall ys, Wfsa.pathsum (FstOpsProofs.project_out m) ys = bsum (ProductProofs.words_le V (length ys)) (fun xs => trel m (length ys) xs ys)).
+Proof.
+  intros S V m HV. split.
+  - intros H1 H2 xs. exact (FstOpsProofs.project_in_pathsum S V m HV H1 H2 xs).
+  - intros H1 H2 ys. exact (FstOpsProofs.project_out_pathsum S V m HV H1 H2 ys).
+Qed.
+Print Assumptions C10_projections.
